@@ -412,7 +412,8 @@ def parts(tier):
 
     def gen_tgzc():
         for ivs in D.interval_sets(TG_GRID, 2):
-            for pts in ((), (10,), (9, 11), (0, 32), (8, 16, 24)):
+            # ((9, 9), (9, 9, 11): two points at one time, and points that are sent to the SAME crossing - there are as many points afterwards as before)
+            for pts in ((), (10,), (9, 11), (0, 32), (8, 16, 24), (9, 9), (9, 9, 11)):
                 for adjP, adjI in ((True, True), (False, True), (True, False)):
                     yield (ivs, pts, adjP, adjI)
         # two tiers of each type, in the order w, p, q, v: nothing may carry over from one tier to the next
